@@ -63,7 +63,7 @@ def main():
         with open(os.path.join(wt, "Cargo.toml"), "w") as f:
             f.write(c)
     rc_with, o_with = run("cargo test --offline -p darling --test seed_demo 2>&1 | tail -15", wt, tgt)
-    demo_fails_with = "FAILED" in o_with or "panicked" in o_with
+    demo_fails_with = "FAILED" in o_with or "panicked" in o_with or "could not compile" in o_with or "error[" in o_with
     run(["git", "apply", "-R", patch], wt)
     rc_without, o_without = run("cargo test --offline -p darling --test seed_demo 2>&1 | tail -8", wt, tgt)
     demo_passes_without = "test result: ok" in o_without
